@@ -1,5 +1,6 @@
 mod common;
 mod p_batched;
+mod p_coo;
 mod p_dict;
 mod p_bpetrain;
 mod p_edit;
@@ -27,6 +28,7 @@ fn component(name: &str) -> (ExecFn, GenFn) {
     match name {
         "edit" => (p_edit::exec, p_edit::gen),
         "pipe" => (p_pipe::exec, p_pipe::gen),
+        "coo" => (p_coo::exec, p_coo::gen),
         "dict" => (p_dict::exec, p_dict::gen),
         "match" => (p_words::exec_match, p_words::gen_match),
         "metrics" => (p_words::exec_metrics, p_words::gen_metrics),
